@@ -29,6 +29,27 @@ def sort_calls(fn):
     return [(bi, t) for bi, t in fn.calls() if call_name_matches(t, r"slice::<impl \[T\]>::sort\w*$")]
 
 
+def hash_container_offenders(facts, crate):
+    """(functions analysed, [functions with a local / data types with a field of a hash-ordered container type])"""
+    n = 0
+    offenders = []
+    for f in facts.fns.values():
+        if f.crate != crate:
+            continue
+        n += 1
+        for l in f.locals:
+            if re.search(r"std::collections::(HashMap|HashSet|hash_map|hash_set)", l["ty"]):
+                offenders.append(f.name)
+                break
+    for a in facts.adts.values():
+        if a["crate"] == crate:
+            for v in a["variants"]:
+                for fd in v["fields"]:
+                    if re.search(r"std::collections::(HashMap|HashSet)", fd["ty"]):
+                        offenders.append(a["name"].split("::")[-1] + "." + fd["name"])
+    return n, offenders
+
+
 def run(ck, facts, tier):
     facts.require_crates(["sophia_c14n"])
     # ---- R5.1a
@@ -174,22 +195,12 @@ def run(ck, facts, tier):
                 ck.bad("R5.2", "R5.2@nq_for_hash#placeholders", "the blank-node branch of nq_for_hash writes %s%s instead of exactly the "
                        "placeholders `_:a ` / `_:z `: the first-degree hash would depend on labels" % (pushed, " and non-constant data" if bad else ""), fn.loc)
     # ---- R5.3
-    n = 0
-    offenders = []
-    for f in facts.fns.values():
-        if f.crate != "sophia_c14n":
-            continue
-        n += 1
-        for l in f.locals:
-            if re.search(r"std::collections::(HashMap|HashSet|hash_map|hash_set)", l["ty"]):
-                offenders.append(f.name)
-                break
-    for a in facts.adts.values():
-        if a["crate"] == "sophia_c14n":
-            for v in a["variants"]:
-                for fd in v["fields"]:
-                    if re.search(r"std::collections::(HashMap|HashSet)", fd["ty"]):
-                        offenders.append(a["name"] + "." + fd["name"])
+    import core
+    fo = hash_container_offenders(core.fixture_facts(), "vfix")[1]
+    ck.control("R5.3", "pos_hash_iteration", "pos_hash_iteration" in fo)
+    ck.control("R5.3", "PosLaundering.owner (HashMap field)", "PosLaundering.owner" in fo)
+    ck.control("R5.3", "neg_ordered_iteration", "neg_ordered_iteration" in fo, expect=False)
+    n, offenders = hash_container_offenders(facts, "sophia_c14n")
     if offenders:
         ck.bad("R5.3", "R5.3@sophia_c14n#hash-containers:%s" % offenders[0], "hash-ordered containers in the canonicalisation code (%s): "
                "iteration order would leak into identifiers or output" % sorted(set(offenders))[:4], None)
